@@ -122,6 +122,37 @@ class Evaluator:
                 a, b = self.eval(e.body, env), self.eval(e.orelse, env)
                 return a if (a is not UNKNOWN and b is not UNKNOWN and a == b and type(a) is type(b)) else UNKNOWN
             return self.eval(e.body if t else e.orelse, env)
+        if isinstance(e, ast.Call) and isinstance(e.func, ast.Name) and e.func.id == "len" and len(e.args) == 1 and not e.keywords:
+            v = self.eval(e.args[0], env)
+            return len(v) if isinstance(v, (str, bytes, list, tuple, dict, set)) else UNKNOWN
+        if isinstance(e, ast.Call) and isinstance(e.func, ast.Attribute) and e.func.attr in ("startswith", "endswith", "lower", "upper", "strip", "lstrip", "rstrip") and not e.keywords:
+            recv = self.eval(e.func.value, env)
+            args = [self.eval(a, env) for a in e.args]
+            if isinstance(recv, str) and all(isinstance(a, (str, tuple)) for a in args) and len(args) <= 1:
+                try:
+                    return getattr(recv, e.func.attr)(*args)
+                except Exception:
+                    return UNKNOWN
+            return UNKNOWN
+        if isinstance(e, ast.Subscript):
+            v = self.eval(e.value, env)
+            if isinstance(v, (str, bytes, list, tuple)):
+                sl = e.slice
+                try:
+                    if isinstance(sl, ast.Slice):
+                        parts = [None if x is None else self.eval(x, env) for x in (sl.lower, sl.upper, sl.step)]
+                        if any(x is UNKNOWN for x in parts):
+                            return UNKNOWN
+                        return v[slice(*parts)]
+                    i = self.eval(sl, env)
+                    if isinstance(i, int) and not isinstance(i, bool):
+                        return v[i]
+                except Exception:
+                    return UNKNOWN
+            return UNKNOWN
+        if isinstance(e, ast.Tuple):
+            vals = [self.eval(x, env) for x in e.elts]
+            return UNKNOWN if any(v is UNKNOWN for v in vals) else tuple(vals)
         if isinstance(e, ast.Call) and isinstance(e.func, ast.Name) and e.func.id in ("bool", "int") and len(e.args) == 1 and not e.keywords:
             v = self.eval(e.args[0], env)
             if v is UNKNOWN:
